@@ -321,6 +321,20 @@ def C08 (c : Ctx N) : Clauses :=
       (c.n == 0 || c.T == 0 || !frozen c none) &&
       (List.range (c.T - 1)).all (fun t => !frozen c (some t))) ]
 
+/-- C06 on the stall path: the cycle in which the dead-lock is detected is not recorded, so `C06`'s "held back only
+if …" has no row to speak about it; in that cycle nothing moved (no instruction took the memory port), hence the next
+instruction was held back with every supporting input port *full* — in the last recorded row, or, for an empty diagram,
+in the empty record before the first cycle (seeded change C06-10: a re-used hardware object that had lost its input
+ports raised the stall error with an empty diagram). -/
+def C06Stall (c : Ctx N) : Clauses :=
+  [ ("a stall error: the next instruction found every supporting input port full",
+      !c.stalled ||
+      (let t : Option Nat := if c.T = 0 then none else some (c.T - 1)
+       let row : Util N := match t with | some t => c.row t | none => []
+       let nxt := match t with | some t => issuedBy c t | none => 0
+       decide (c.n ≤ nxt) ||
+         c.p.inBoundary.all (fun u => !supports c.prog nxt u || decide (u.width ≤ (row.get u.name).length)))) ]
+
 /-- all simulator properties, by id -/
 def simClauses [LT N] [DecidableRel (α := N) (· < ·)] (c : Ctx N) : List (String × Clauses) :=
   [("C01", C01 c), ("C02", C02 c), ("C03", C03 c), ("C04", C04 c), ("C05", C05 c), ("C06", C06 c), ("C07", C07 c), ("C08", C08 c)]
